@@ -36,7 +36,9 @@ Theorem C02live_synrecv_ack_no_rst : forall cx s ip r s' rep tags,
   s_tuple s' = s_tuple s /\ s_tx_buffer s' = s_tx_buffer s /\
   (s_remote_last_ack s <> None -> s_remote_last_ack s' <> None) /\
   rt_max_seq_sent (s_rtte s') = rt_max_seq_sent (s_rtte s) /\
-  ((s_state s' = SynReceived /\ s_local_seq_no s' = s_local_seq_no s) \/
+  ((s_state s' = SynReceived /\ s_local_seq_no s' = s_local_seq_no s /\
+    fst (tcp_segment_in_window (tcp_window_start s) (tcp_window_end s) (r_seq_number r)
+                               (seq_add (r_seq_number r) (l_len (r_payload r)))) = false) \/
    (s_state s' = Established /\ s_local_seq_no s' = seq_add (s_local_seq_no s) 1)) /\
   reply_ack ip r s' rep.
 Proof. exact process_synrecv_ack. Qed.
@@ -51,7 +53,8 @@ Theorem C02live_synsent_synack_establishes : forall cx s ip r s' rep tags,
   s_local_seq_no s' = seq_add (s_local_seq_no s) 1 /\
   s_remote_seq_no s' = seq_add (r_seq_number r) 1 /\ s_rx_buffer s' = s_rx_buffer s /\
   s_remote_last_ack s' = Some (r_seq_number r) /\ rep = None /\
-  rt_max_seq_sent (s_rtte s') = rt_max_seq_sent (s_rtte s).
+  rt_max_seq_sent (s_rtte s') = rt_max_seq_sent (s_rtte s) /\
+  s_remote_last_seq s' = seq_add (s_local_seq_no s) 1 /\ s_ack_delay_timer s' = s_ack_delay_timer s.
 Proof. exact process_synsent_synack. Qed.
 Print Assumptions C02live_synsent_synack_establishes.
 
